@@ -72,6 +72,7 @@ type Thread struct {
 }
 
 type pendingOp struct {
+	idle    bool // enabled only when nothing else can run and the environment is quiet
 	kind    OpKind
 	obj     string
 	enabled func() bool
@@ -347,6 +348,13 @@ func (s *Sched) Steps() int { return len(s.out.Steps) }
 // Yield is an always-enabled point.
 func (s *Sched) Yield() { s.Point(OpYield, "", nil, nil) }
 
+// WaitIdle parks the calling thread until no other thread is enabled and the environment
+// has nothing in flight (pending timers do not count).
+func (s *Sched) WaitIdle() {
+	t := s.cur()
+	s.park(t, &pendingOp{kind: OpJoin, obj: "idle", idle: true})
+}
+
 // Join blocks until t has finished.
 func (s *Sched) Join(t *Thread) {
 	s.Point(OpJoin, t.Name, func() bool { return t.Done }, nil)
@@ -369,11 +377,18 @@ func (s *Sched) park(t *Thread, op *pendingOp) {
 func (s *Sched) enabledThreads() []*Thread {
 	var en []*Thread
 	for _, t := range s.threads {
-		if t.Done || t.pending == nil {
+		if t.Done || t.pending == nil || t.pending.idle {
 			continue
 		}
 		if t.pending.enabled == nil || t.pending.enabled() {
 			en = append(en, t)
+		}
+	}
+	if len(en) == 0 && (s.env == nil || (s.env.NextWake().IsZero() && len(s.env.Actions(false)) == 0)) {
+		for _, t := range s.threads {
+			if !t.Done && t.pending != nil && t.pending.idle {
+				en = append(en, t)
+			}
 		}
 	}
 	// canonical order must not depend on the order in which goroutines registered
